@@ -14,7 +14,7 @@ from vf.harness import assemble
 LEVEL = "fault_enumeration"
 RULE = (
     "fault enumeration: valid generated programs rendered with random comments, blank lines, indentation, multi-line /* */ comments, "
-    "blocks, macro definitions and (nested) .include files x 12 classes of erroneous statement (undefined symbol in an operand / in a data "
+    "blocks, macro definitions and (nested) .include files x 14 classes of erroneous statement (undefined symbol in an operand / in a data "
     "directive / in a data list continued over two lines, unterminated string with an escaped quote followed by lines holding quote characters, bad size suffix, bad outer / inner index register, unterminated string before a newline / at end of input, size suffix "
     "missing at end of line) inserted at every statement position (thorough) or 8 positions (quick), in the main file and in included "
     "files; the reported file, zero-based line, quoted line text and (lexical errors) column are judged against the known insertion point; "
@@ -42,6 +42,10 @@ FAULTS = {
     "undefined_data_continued": ("node2", ".dw 1, 2,\n  3, undefined_zz9", None, 0),
     "undefined_data_continued_first": ("node2", ".dl undefined_zz9, 2,\n  3", None, 0),
     # an escaped quote inside the unterminated string, quote characters on later lines
+    # the failing operand reads exactly like an earlier one that was fine (a name local to a scope, used inside it and then outside by mistake):
+    # the statement that fails is the last line of this text
+    "undefined_operand_same_text_as_earlier": ("node", ".scope sc_zz9 {\ninner_zz9:\njsr.w inner_zz9\n.dw inner_zz9\n}\njsr.w inner_zz9", None, 0, 5),
+    "undefined_data_same_text_as_earlier": ("node", "{\ninner_zz9:\n.dw inner_zz9\n}\nnop\n.dw inner_zz9", None, 0, 5),
     "unterminated_string_escaped_quote": ("scan", ".ascii 'Don\\'t panic\n.ascii 'Bye'\nrts ; that's all", "'Don", 0),
 }
 LOC_RE = re.compile(r"(?P<file>[\w./-]+):(?P<line>-?\d+)(?::(?P<col>-?\d+))?")
@@ -67,7 +71,8 @@ def classify(name: str, got_line: int, want_line: int, col) -> str:
 
 
 def check_case(res: Res, p: dict, name: str, where: tuple[list, int], lay_seed: int) -> None:
-    kind, text, marker, moff = FAULTS[name]
+    kind, text, marker, moff = FAULTS[name][:4]
+    loff = FAULTS[name][4] if len(FAULTS[name]) > 4 else 0      # line, inside the inserted text, of the statement that fails
     lst, i = where
     if kind == "scan_eof":
         # the erroneous statement is the last thing of its file
@@ -79,7 +84,7 @@ def check_case(res: Res, p: dict, name: str, where: tuple[list, int], lay_seed: 
     try:
         lay = Layout(random.Random(lay_seed), indent=True, blank=True, trailing=(kind != "scan_eof"), comments=True, block_comments=True, exotic_comments=True)
         rd = render(p["prog"], lay)
-        line = rd.stmt_line[id(fault)]
+        line = rd.stmt_line[id(fault)] + loff
         fname = rd.stmt_file.get(id(fault), "t.s")
         main = "\n".join(rd.lines)
         files = dict(rd.files)
@@ -95,7 +100,7 @@ def check_case(res: Res, p: dict, name: str, where: tuple[list, int], lay_seed: 
         res.count("uniformly_indented_sources")
     file_text = main if fname == "t.s" else files[fname].rstrip("\n")
     flines = file_text.split("\n")
-    if line >= len(flines) or text.split("\n")[0] not in flines[line]:
+    if line >= len(flines) or text.split("\n")[loff] not in flines[line]:
         res.count("harness_bookkeeping_skipped")      # the insertion point could not be located in the rendered file: not a case
         return
     if kind == "scan_eof":
